@@ -96,6 +96,12 @@ def run_check(modname: str, tier: str, replay: str | None = None) -> int:
     escalate = (not proofs.ok)
     gen = list(mod.gen_cases(rng, "thorough" if escalate else tier))
     cases.extend(gen)
+    # modelled source moved since the digests were pinned: not a verdict, but a reason to look harder —
+    # two more independent generator streams in the quick tier
+    moved = core.pins_changed(prop)
+    if moved and tier == "quick" and not escalate:
+        for stream in (1, 2):
+            cases.extend(mod.gen_cases(core.rng_for(prop, stream), tier))
     seen = set()
     uniq = []
     for c in cases:
@@ -219,6 +225,7 @@ def run_check(modname: str, tier: str, replay: str | None = None) -> int:
         "histogram": dict(hist),
         "known_findings_hit": sorted(known_hit),
         "proof_broken": proofs.broken,
+        "anchored_files_changed_since_pin": moved,
         "harness_errors": harness_err,
         "explanation": getattr(mod, "EXPLANATION", ""),
         "exhaustive": bool(getattr(mod, "EXHAUSTIVE", {}).get(tier, False)),
